@@ -146,8 +146,8 @@ func (o *ObsC05) AfterOp(x *Exec, i int, op Op, res *OpResult) *vcore.Failure {
 		alloc, _ := x.W.Tables()
 		for _, p := range x.livePods() {
 			for _, ip := range p.Payload {
-				if !inConfig(x.ConfInForce, ip) {
-					continue
+				if !inConfig(x.ConfInForce, ip) || x.everDropped(ip) {
+					continue // an earlier reload without this IP dropped the allocation for good (C09): nothing to lose any more
 				}
 				if f, ok := alloc[ip]; !ok || f.Key != p.Key {
 					return vcore.Failf("c05:crash:pod_lost_ip", "after crash, restart and resync the existing pod %s (uid %s) no longer owns the IP %s "+
